@@ -246,7 +246,10 @@ func run(c *core.Ctx) {
 	}
 	outcomes := map[string]Exec{}
 	var first string
-	caseNo, _ := c.Begin()
+	caseNo, run := c.Begin()
+	if c.Skip(caseNo, run, Input{Scenario: s.name, Files: s.files}) {
+		return
+	}
 	for _, ord := range explore.Perms(len(s.files)) {
 		ord := ord
 		st, complete := explore.DFS(b, func(x *explore.X) {
@@ -328,7 +331,10 @@ func runCLI(c *core.Ctx, sc []scenario, format string) {
 			os.WriteFile(p, []byte(f.Text), 0o644)
 			paths = append(paths, p)
 		}
-		caseNo, _ := c.Begin()
+		caseNo, run := c.Begin()
+		if c.Skip(caseNo, run, Input{Scenario: s.name, Files: s.files, CLI: format}) {
+			continue
+		}
 		invoke := func(prefix []int) (string, []int) {
 			logf := filepath.Join(dir, "rt.log")
 			os.Remove(logf)
@@ -446,7 +452,7 @@ func replayCLI(in Input) (bool, string, string) {
 
 func init() {
 	core.Register(&core.Prop{
-		ID: "C05", Variant: "order", Shards: shards, Run: run, Replay: replay,
+		ID: "C05", Variant: "order", NoResume: true, Shards: shards, Run: run, Replay: replay,
 		Rule:        "for every scenario of the conflict library (equal identity names, pairs of deviate kinds in one deviation, two deviating modules, two augmenting modules with equal/different/existing child names, augment chains and missing targets, two revisions of one module, errors spread over modules and lines, definitions spread over submodules, and pairwise combinations): every permutation of load order x every map-iteration order within the deviation bound is one execution of the real (instrumented) library; all executions of a scenario must give the same canonical dump (all exported attributes, positions, identity value sequences) or the same error list; every error list must be ordered by file, line, column without duplicates; the instrumented goyang command must print byte-identical tree and types renderings under every single deviation. states = distinct (scenario, load order, map-order answers); transitions = choice edges",
 		Assumptions: []string{"the instrumented copy behaves like the original under canonical order (the repository's suite is run on it each time)", "for maps with more than three keys rotations, adjacent transpositions and the reversal stand for all permutations"},
 	})
